@@ -805,6 +805,10 @@ func c06readers(readers, perReader int, prefill, wr []int, bound int, closer ...
 	if withClose {
 		name += ", closed by a third thread"
 	}
+	shortReader := len(closer) > 1 && closer[1]
+	if shortReader {
+		name += ", reader 0 with a 4-byte slice"
+	}
 	sc := &explore.Scenario{Name: name, Bound: bound}
 	sc.Cfg.Horizon = time.Second
 	sc.Cfg.YieldOnRelease = true
@@ -846,7 +850,15 @@ func c06readers(readers, perReader int, prefill, wr []int, bound int, closer ...
 				zzvsched.GoNamed(fmt.Sprintf("reader%d", r), func() {
 					for i := 0; i < perReader; i++ {
 						buf := make([]byte, 4096)
+						if shortReader && r == 0 {
+							buf = buf[:4]
+						}
 						n, err := b.Read(buf)
+						if shortReader && r == 0 && errors.Is(err, io.ErrShortBuffer) {
+							// a cut read: the leading bytes, and the whole packet is consumed
+							got[r] = append(got[r], append([]byte{0xFF}, buf[:n]...))
+							continue
+						}
 						if err != nil {
 							if withClose && errors.Is(err, io.EOF) {
 								return
@@ -896,11 +908,17 @@ func c06readers(readers, perReader int, prefill, wr []int, bound int, closer ...
 			for r, g := range got {
 				last := -1
 				for _, p := range g {
+					cut := false
+					if len(p) > 0 && p[0] == 0xFF { // marker of a cut read (packet tags are small numbers)
+						cut, p = true, p[1:]
+					}
 					if len(p) == 0 || int(p[0]) >= len(all) {
 						return out, &explore.Violation{Sig: "C06 concurrent-corrupt", Msg: fmt.Sprintf("%s: a read returned %d bytes that match no written packet", name, len(p))}
 					}
 					k := int(p[0])
-					if want := mk(k, all[k]); !bytes.Equal(p, want) {
+					if want := mk(k, all[k]); cut && !(len(want) > len(p) && bytes.Equal(p, want[:len(p)])) {
+						return out, &explore.Violation{Sig: "C06 concurrent-corrupt", Msg: fmt.Sprintf("%s: a cut read returned % x, not the leading bytes of packet %d", name, p, k)}
+					} else if !cut && !bytes.Equal(p, want) {
 						return out, &explore.Violation{Sig: "C06 concurrent-corrupt", Msg: fmt.Sprintf("%s: packet %d (%d bytes) was read as %d bytes, first difference at %d", name, k, len(want), len(p), firstDiff(p, want))}
 					}
 					seen[k]++
@@ -949,7 +967,8 @@ func init() {
 			c06readers(3, 1, []int{9, 5}, []int{7}, b),
 			c06readers(2, 2, []int{9}, []int{7, 1500, 3}, b),
 			c06readers(2, 2, []int{9, 5}, []int{7}, b, true),
+			c06readers(2, 2, []int{9, 12}, []int{7, 30}, b, false, true),
 		}
 	}
-	c.Rule += "; concurrently: 2 writers x 2 packets whose sizes force the ring to grow, with and without a concurrent reader, every interleaving within the preemption bound: the read sequence must be a merge of the writers' sequences, byte-identical; a full size-limited ring (41 bytes) with a reader and a writer whose packets re-use the bytes just released, with a scheduling point after every unlock; a 180 KB backlog growing the ring past 128 KiB beside a reader; 2-3 concurrent readers on a buffer holding fewer packets than there are readers (each packet to exactly one reader)"
+	c.Rule += "; concurrently: 2 writers x 2 packets whose sizes force the ring to grow, with and without a concurrent reader, every interleaving within the preemption bound: the read sequence must be a merge of the writers' sequences, byte-identical; a full size-limited ring (41 bytes) with a reader and a writer whose packets re-use the bytes just released, with a scheduling point after every unlock; a 180 KB backlog growing the ring past 128 KiB beside a reader; 2-3 concurrent readers (one of them optionally with a slice shorter than the packets) on a buffer holding fewer packets than there are readers (each packet to exactly one reader)"
 }
